@@ -92,7 +92,7 @@ impl<T: El> Interp<T> {
       "collect" => {
         argc(3)?;
         let it = It::parse(t[2])?;
-        self.room(it.items.len())?;
+        self.room(it.items.iter().flatten().count())?;
         let si = ScriptIter::<T>::new(it);
         let v = scoped(|| si.collect::<MiniVec<T>>());
         self.built(r, v)
